@@ -1629,7 +1629,7 @@ def execute(cls, stack, stdout, context):
         if entrypoint_type is None:
             if is_pkh(contract_address):
                 assert entrypoint == 'default'
-                UnitType.assert_type_equal(cls.args[0])
+                assert cls.args[0].prim in ('unit', 'ticket')
         else:
             entrypoint_type.assert_type_equal(cls.args[0])
         res = OptionType.from_some(contract_type.from_value(f'{contract_address}%{entrypoint}'))
